@@ -159,7 +159,7 @@ def parseTokens (g : Grammar) (chk : Bytes → Option Cause) (toks : List Token)
 /-- the table `AddStandardTags` builds (checked against the source by translator T1) -/
 def stdGrammar : Grammar :=
   [ ⟨[99, 97, 112, 116, 117, 114, 101], []⟩,                                   -- capture
-    ⟨[99, 97, 115, 101], [[119, 104, 101, 110], [101, 108, 115, 101]]⟩,        -- case: when else
+    ⟨[99, 97, 115, 101], [[101, 108, 115, 101], [119, 104, 101, 110]]⟩,        -- case: else when (T1 writes names sorted)
     ⟨commentName, []⟩,
     ⟨[102, 111, 114], [[101, 108, 115, 101]]⟩,                                 -- for: else
     ⟨[105, 102], [[101, 108, 115, 101], [101, 108, 115, 105, 102]]⟩,           -- if: else elsif
@@ -169,8 +169,8 @@ def stdGrammar : Grammar :=
 
 /-- plain (non-block) tags of `AddStandardTags` -/
 def stdTags : List Bytes :=
-  [ [97, 115, 115, 105, 103, 110], [105, 110, 99, 108, 117, 100, 101], [98, 114, 101, 97, 107],
-    [99, 111, 110, 116, 105, 110, 117, 101], [99, 121, 99, 108, 101] ]       -- assign include break continue cycle
+  [ [97, 115, 115, 105, 103, 110], [98, 114, 101, 97, 107], [99, 111, 110, 116, 105, 110, 117, 101],
+    [99, 121, 99, 108, 101], [105, 110, 99, 108, 117, 100, 101] ]       -- assign break continue cycle include (sorted)
 
 /-! ## Printing (line protocol): the shape of the tree -/
 
